@@ -1,4 +1,5 @@
 import NautilusVerif.Model.CoreInv
+import NautilusVerif.Model.NodupFast
 open NautilusVerif Core
 namespace CoreDriver
 
@@ -51,24 +52,37 @@ def parseOp (ws : List String) : Option Op :=
 def lstr (l : List Nat) : String := "[" ++ ",".intercalate (l.map toString) ++ "]"
 def istr (l : List Int) : String := "[" ++ ",".intercalate (l.map toString) ++ "]"
 
-def shellStr (sh : Shell) : String :=
-  s!"b={sh.bound} p={lstr sh.pts} l={lstr sh.ls} x={lstr sh.bs} ns={sh.nSample} nse={sh.nSampleExp} ee={sh.endExp} n={sh.nShown}"
+/-- compact fingerprint of a list: length, sum and position-weighted sum modulo 2^64 (a reordering, a missing or a
+    foreign element changes it) -/
+def fp (l : List Nat) : String :=
+  let (n, s, w) := l.foldl (fun (acc : Nat × UInt64 × UInt64) x =>
+    (acc.1 + 1, acc.2.1 + UInt64.ofNat x, acc.2.2 + UInt64.ofNat (acc.1 + 1) * UInt64.ofNat x)) (0, 0, 0)
+  s!"{n}:{s}:{w}"
 
-def stStr (s : St) : String :=
-  " ; ".intercalate (s.shells.map shellStr) ++
-  s!" # t={lstr s.tPts} {lstr s.tLs} {lstr s.tBs} {istr s.tShell} # ex={s.explored} d={s.discard} nl={s.nLike}"
+def shellStr (full : Bool) (sh : Shell) : String :=
+  if full then
+    s!"b={sh.bound} p={lstr sh.pts} l={lstr sh.ls} x={lstr sh.bs} ns={sh.nSample} nse={sh.nSampleExp} ee={sh.endExp} n={sh.nShown}"
+  else
+    s!"b={sh.bound} p={fp sh.pts} l={fp sh.ls} x={fp sh.bs} ns={sh.nSample} nse={sh.nSampleExp} ee={sh.endExp} n={sh.nShown}"
+
+def stStr (full : Bool) (s : St) : String :=
+  " ; ".intercalate (s.shells.map (shellStr full)) ++
+  (if full then s!" # t={lstr s.tPts} {lstr s.tLs} {lstr s.tBs} {istr s.tShell}"
+   else s!" # t={fp s.tPts} {fp s.tLs} {fp s.tBs} {fp (s.tShell.map (fun t => (t + 1).toNat))}") ++
+  s!" # ex={s.explored} d={s.discard} nl={s.nLike}"
 
 def outStr : Out → String
   | .ok => "ok" | .okB b => s!"ok:{b}" | .badOracle w => "bad-oracle:" ++ w | .raised w => "raised:" ++ w
 
 def invStr (env : Env) (s : St) : String :=
-  s!"inshells={decide (InShells env s)} tlast={decide (TransfersInLast env s)} nodup={decide (NoDup s)} " ++
+  s!"inshells={decide (InShells env s)} tlast={decide (TransfersInLast env s)} nodup={nodupFast (allStored s ++ (if s.explored then [] else unusedTransfers s))} " ++
   s!"aligned={decide (Aligned s)} counts={decide (Counts s)} shape={decide (ExploredShape s)}"
 
 /-- `core <nBatch> | P id:mask:cube ... | op | op ...` → per op `out # state # invariants`, joined by ` ;; ` -/
 def handle (ws : List String) : Option String :=
   match ws with
-  | "core" :: nb :: "|" :: rest => do
+  | mode :: nb :: "|" :: rest => do
+      let full ← if mode == "corefull" then some true else if mode == "core" then some false else none
       let nBatch ← nb.toNat?
       let groups := splitOnTok "|" rest [] []
       match groups with
@@ -81,7 +95,7 @@ def handle (ws : List String) : Option String :=
           let ops ← (opsW.filter (· ≠ [])).mapM parseOp
           let (_, outs) := ops.foldl (fun (acc : St × List String) op =>
             let r := step env acc.1 op
-            (r.1, acc.2 ++ [outStr r.2 ++ " # " ++ stStr r.1 ++ " # " ++ invStr env r.1])) (init nBatch, [])
+            (r.1, acc.2 ++ [outStr r.2 ++ " # " ++ stStr full r.1 ++ " # " ++ invStr env r.1])) (init nBatch, [])
           some (" ;; ".intercalate outs)
       | _ => none
   | _ => none
